@@ -1186,3 +1186,13 @@ V("C16", "twin-rdf-t-weights-precomputed-right", RDFP, "    weights = np.zeros(n
   edits=[("    weights = np.zeros(n_small_chunks)\n", "    weights = np.ones(n_small_chunks)\n    weights[-1] = (len(pairs) - (n_small_chunks - 1) * n_concurrent_pairs) / n_concurrent_pairs\n"), ("        weights[i] = len(pairs_set) / n_concurrent_pairs\n", "")])
 V("C16", "rdf-t-unweighted-chunk-average", RDFP, "    g_r_t_final = np.average(g_r_t, axis=0, weights=weights)", "    g_r_t_final = np.mean(g_r_t, axis=0)", "C16-R7", "compute_rdf_t")
 V("C16", "rdf-t-chunk-stride-off-by-one", RDFP, "        pairs_set = pairs[i * n_concurrent_pairs : (i + 1) * n_concurrent_pairs]", "        pairs_set = pairs[i * n_concurrent_pairs : (i + 1) * n_concurrent_pairs - 1]", "C16-R7", "compute_rdf_t")
+CTP = "mdtraj/geometry/contact.py"
+V("C16", "twin-contacts-running-offset", CTP, "        for i in range(n_residue_pairs):\n            index = int(np.sum(n_atom_pairs_per_residue_pair[:i]))\n            n = n_atom_pairs_per_residue_pair[i]\n",
+  "        offset = 0\n        for i in range(n_residue_pairs):\n            index = offset\n            n = n_atom_pairs_per_residue_pair[i]\n            offset = offset + n\n", None)
+V("C16", "contacts-running-offset-advanced-too-early", CTP, "        for i in range(n_residue_pairs):\n            index = int(np.sum(n_atom_pairs_per_residue_pair[:i]))\n            n = n_atom_pairs_per_residue_pair[i]\n",
+  "        offset = 0\n        for i in range(n_residue_pairs):\n            n = n_atom_pairs_per_residue_pair[i]\n            offset = offset + n\n            index = offset\n", "C16-R5", "compute_contacts")
+V("C16", "twin-contacts-membership-helper-loop", CTP, "            residue_membership = [[atom.index for atom in residue.atoms] for residue in traj.topology.residues]\n",
+  "            residue_membership = []\n            for residue in traj.topology.residues:\n                residue_membership.append([atom.index for atom in residue.atoms])\n", None)
+V("C16", "contacts-all-starts-at-i-plus-2", CTP, "            for j in range(i + 3, traj.n_residues):", "            for j in range(i + 2, traj.n_residues):", "C16-R5", "compute_contacts")
+V("C16", "contacts-all-ignores-chain", CTP, "                if residue_i.chain == residue_j.chain:\n                    residue_pairs.append((i, j))", "                residue_pairs.append((i, j))", "C16-R5", "compute_contacts")
+V("C16", "contacts-count-uses-first-residue-twice", CTP, "                residue_lens[pair[0]] * residue_lens[pair[1]],", "                residue_lens[pair[0]] * residue_lens[pair[0]],", "C16-R5", "compute_contacts")
